@@ -20,6 +20,8 @@ from . import explore as X
 from . import world as Wd
 
 MAX_VIOL_PER_JOB = 40
+_NO_CRIT = frozenset(["shared", "re", "mk", "iv", "sync", "with:N", "with:Xp", "with:Xr", "flush:new", "flush:nested",
+                      "dd", "ddirty", "dbi"])
 
 
 def feats(prog):
@@ -49,6 +51,11 @@ def judge_exec(prog, r, exp, r1, spec, conv, out, r2=None):
                         found.append(("step-count", "task %s ran %s steps, expected %d (one per yield + start)"
                                       % (tid, r.steps.get(tid), n)))
                         break
+        if "crit-count" in cats and len(prog.kinds) == 1 and r1.crit is not None and not (prog.features & _NO_CRIT):
+            nf = len(r.decisions)
+            if nf != r1.crit:
+                found.append(("crit-count", "single batch kind: %d flushes, but the longest chain of sequentially dependent requests is %d"
+                              % (nf, r1.crit)))
         for sid, val in r1.probes.items():
             got = r.probes.get(sid)
             if val is P.ANY:
